@@ -54,7 +54,7 @@ static void CondVar__wait(struct CondVar *c, struct ULock *l, struct closure_PRu
   _Bool ok = closure_PRun__run_1__call(&pred); g_pred_evals++;
   if (!ok) {
     /* mutex released; other threads run; re-acquired; predicate evaluated again (under the mutex) and now true */
-    struct TP *tp = g_tp; size_t n; __CPROVER_assume(n <= g_lcap - tp->m_queue.head); tp->m_queue.len = n; _Bool r; tp->m_isRunning = r;
+    struct TP *tp = g_tp; size_t n; __CPROVER_assume(n <= g_lcap - tp->m_queue.head); tp->m_queue.len = n; TP_FLAG(tp) = nondet_bool();
     ok = closure_PRun__run_1__call(&pred); g_pred_evals++;
     __CPROVER_assume(ok);
   }
@@ -83,6 +83,8 @@ static void ThreadIt__ctor__ThreadIt_ref(struct ThreadIt *a, struct ThreadIt *b)
 static _Bool X_op_eq__ThreadIt_ref_ThreadIt_ref(struct ThreadIt *a, struct ThreadIt *b) { return a->idx == b->idx; }
 static void TaskList__ctor_default(struct TaskList *l) { l->head = 0; l->len = 0; }
 static _Bool TaskList__empty(struct TaskList *l) { return l->len == 0; }
+static size_t TaskList__size(struct TaskList *l) { return l->len; }
+static _Bool ThreadList__empty(struct ThreadList *l) { return l->len == 0; }
 static void TaskList__begin(struct TaskList *l, struct TaskIt *r) { r->l = l; r->idx = 0; }
 static void TaskList__end(struct TaskList *l, struct TaskIt *r) { r->l = l; r->idx = l->len; }
 static void TaskList__clear(struct TaskList *l) { l->len = 0; }
@@ -130,7 +132,6 @@ void Thread__dtor(struct Thread *t) { __CPROVER_assert(t == g_last_joined, "C08 
 void Thread__join(struct Thread *t) { __CPROVER_assert(!g_held_queue, "C08 the owner does not hold the queue mutex while it waits for a worker to exit"); g_last_joined = t; if (t == g_wthread) g_wthread_joins++; }
 /* m_isFinished is written by the worker and read by the owner with no lock in between: the discipline demands an
  * atomic type for it (checked on the declared type, see THREAD_FINISHED_IS_ATOMIC in the harness) */
-_Bool nondet_bool(void);
 _Bool Thread__isFinished(struct Thread *t) { return nondet_bool(); }
 _Bool Thread__isRunning(struct Thread *t) { return nondet_bool(); }
 void Thread__start(struct Thread *t, struct Runnable *r) { g_starts++; g_workers_exist = 1; }
